@@ -86,7 +86,10 @@ Fixpoint plain_type (kc : kcfg) (t : ftype) : bool :=
 with plain_fields (kc : kcfg) (fs : fields) : bool :=
   match fs with
   | FNil => true
-  | FCons key _ t rest => plain_key kc key && plain_type kc t && plain_fields kc rest
+  | FCons key o t rest =>
+    plain_key kc key && plain_type kc t
+    && match opt_default o with Some _ => negb (is_slice_deref t) | None => true end   (* Model.v has no default on slices *)
+    && plain_fields kc rest
   | FEmbed _ _ inner rest => plain_fields kc inner && plain_fields kc rest
   end.
 
@@ -102,7 +105,8 @@ Lemma any_presentK_plain : forall kc env fs o,
 Proof.
   intros kc env fs o. induction fs as [|key op t rest IH|opt ptr inner IHi rest IH]; intro H; simpl in *.
   - reflexivity.
-  - apply andb_true_iff in H. destruct H as [H Hr]. apply andb_true_iff in H. destruct H as [Hk _].
+  - apply andb_true_iff in H. destruct H as [H Hr]. apply andb_true_iff in H. destruct H as [H _].
+    apply andb_true_iff in H. destruct H as [Hk _].
     apply plain_key_seg in Hk. destruct Hk as [Hk _].
     unfold hasv. rewrite (getv_single kc env key o Hk). unfold has. rewrite IH by exact Hr. reflexivity.
   - apply IH. apply andb_true_iff in H. tauto.
@@ -139,6 +143,12 @@ Proof.
   induction o as [|x r IH]; simpl; [reflexivity|]. rewrite IH, H. reflexivity.
 Qed.
 
+Lemma umk_default_plain : forall t d, is_slice_deref t = false -> umk_default kc t d = um_default t d.
+Proof.
+  induction t; intros d H; simpl in *; cbn [umk_default]; try reflexivity; try discriminate.
+  rewrite IHt by exact H. reflexivity.
+Qed.
+
 Lemma collapse_mutual : (forall t, CK_type t) /\ (forall fs, CK_fields fs).
 Proof.
   apply ftype_fields_ind.
@@ -163,7 +173,8 @@ Proof.
     + rewrite H1. reflexivity.
   - intros _. simpl. split; reflexivity.
   - intros key op t IHt rest IHr Hp. simpl in Hp.
-    apply andb_true_iff in Hp. destruct Hp as [Hp Hrest]. apply andb_true_iff in Hp. destruct Hp as [Hk Ht].
+    apply andb_true_iff in Hp. destruct Hp as [Hp Hrest]. apply andb_true_iff in Hp. destruct Hp as [Hp Hdef].
+    apply andb_true_iff in Hp. destruct Hp as [Hk Ht].
     destruct (IHt Ht) as [H1 [H2 H3]]. destruct (IHr Hrest) as [R1 R2].
     apply plain_key_seg in Hk. destruct Hk as [Hseg Hign].
     assert (Hin : forall env o, field_inputK kc env t key o = field_input (k_cfg kc) t key o).
@@ -171,9 +182,20 @@ Proof.
     split.
     + intros env o. simpl. rewrite Hign, Hin, R1, H3.
       destruct (guard (opts_ok op) ETag); simpl; try reflexivity.
-      destruct (resolve fixed (u_canonical (k_cfg kc)) key op o) as [ro| |]; simpl; try reflexivity.
-      destruct (field_input (k_cfg kc) t key o) as [v|]; [|reflexivity].
-      destruct v; try rewrite H1; reflexivity.
+      destruct (resolve fixed (u_canonical (k_cfg kc)) key op o) as [ro| |] eqn:Hres; simpl; try reflexivity.
+      destruct (field_input (k_cfg kc) t key o) as [v|].
+      * destruct v; try rewrite H1; reflexivity.
+      * destruct (ro_default ro) as [d|] eqn:Hd; [|reflexivity].
+        rewrite umk_default_plain; [reflexivity|].
+        (* the resolved options carry the declared default *)
+        assert (Hod : opt_default op = Some d).
+        { destruct op as [op'|]; simpl in *.
+          - unfold resolve in Hres. destruct (o_optional op'); [destruct (o_dep op') as [[ng dp]|]|];
+              repeat match type of Hres with
+                     | (if ?c then _ else _) = _ => destruct c
+                     end; try discriminate; inversion Hres; subst ro; simpl in Hd; exact Hd.
+          - inversion Hres. subst ro. discriminate. }
+        rewrite Hod in Hdef. apply negb_true_iff in Hdef. exact Hdef.
     + intros env o filled. simpl. rewrite Hin, R2.
       unfold hasv. rewrite (getv_single kc env key o Hseg). fold (has key o).
       destruct (guard (opts_ok op) ETag); simpl; try reflexivity.
